@@ -48,6 +48,7 @@ POLS = [(1, 0), (0, 1), (0.6, -0.8)]
 
 LAYERED = [  # (indices, radii) physical, medium 1.33, wl 0.66
     ([1.45, 1.59], [0.3, 0.5]),
+    ([1.59, 1.59], [0.3, 0.5]),             # one material written as 2 layers
     ([1.4, 1.5, 1.6], [0.2, 0.4, 0.6]),
     ([1.59, 1.4, 1.7, 1.45], [0.15, 0.3, 0.45, 0.6]),
     ([1.59, 1.45], [0.2, 0.6]),
@@ -55,6 +56,7 @@ LAYERED = [  # (indices, radii) physical, medium 1.33, wl 0.66
     ([1.33, 1.59], [0.4, 0.5]),
     ([1.7, 1.2, 1.45 + 0.01j], [0.1, 0.5, 0.9]),
     ([1.45, 1.7, 1.5], [0.3, 0.35, 0.8]),
+    ([1.45, 1.59, 1.59], [0.2, 0.35, 0.5]),
 ]
 MS_POLS = [(1, 0), (0, 1), (0.6, -0.8), (1, 0), (0, 1), (0.6, -0.8), (1, 1),
            (0, 1)]
@@ -81,7 +83,7 @@ def cases(tier, seed):
                         "m": _mm(m), "x": x})
             reqs.append(mie_ref.req_homog(m, x))
     for i, (ns, rs) in enumerate(LAYERED):
-        if tier == "quick" and i >= 4:
+        if tier == "quick" and i >= 5:
             break
         out.append({"id": "layered#%d" % i, "kind": "layered", "i": i})
         k = 2 * math.pi * 1.33 / 0.66
